@@ -50,7 +50,7 @@ Lens(items, i, d) ==
    IF i > Len(items) THEN {<<>>}
    ELSE IF items[i].f # "ls" THEN Lens(items, i + 1, d)
    ELSE LET ns == IF d = 0 THEN {items[i].lo} ELSE items[i].lo .. items[i].hi
-        IN {<<<<n, t>>>> \o rest : n \in ns, t \in (IF items[i].trail = "opt" THEN BOOLEAN ELSE {FALSE}), rest \in Lens(items, i + 1, d)}
+        IN {<<<<n, t>>>> \o rest : n \in ns, t \in (IF items[i].trail = "opt" THEN BOOLEAN ELSE IF items[i].trail = "yes" THEN {TRUE} ELSE {FALSE}), rest \in Lens(items, i + 1, d)}
 
 LensTab == [v \in 1 .. NV |-> [z \in BOOLEAN |-> Lens(VItems[v], 1, IF z THEN 0 ELSE 1)]]    \* Lens depends on d only through d = 0
 
